@@ -412,3 +412,58 @@ NOT_APPLICABLE.update({
  "C09": "Private keys vs tree is decided by decap / update_secrets over resolutions (P14, P15, P33); same wall as C01. DESIGN.md §6.",
  "C14": "OpenSSL and AWS-LC are foreign C libraries (Kani does not support foreign functions); RustCrypto primitives are loops over input and wide multiplications that bit-blasting does not finish; X.509 validation is ASN.1 parsing plus the same primitives. DESIGN.md §6.",
 })
+
+
+# ------------------------------------------------------------------ C13 / C18 additions (after the length-lifting fix)
+for nm, l, c, ln, tier in [("c13_export_l0_c0_len0", 0, 0, 0, "quick"), ("c13_export_l3_c2_len5", 3, 2, 5, "quick")]:
+    H(nm, "c13_derive.rs", ["C13"], tier, unwind=40, stubs=ZSTUBS + _UF,
+      what="MLS-Exporter(label, context, len) = ExpandWithLabel(DeriveSecret(exporter_secret, label), 'exported', Hash(context), len) with the "
+           "real KDFLabel encoding; Hash(context) is computed for EVERY context, the empty one included",
+      symbolic="exporter secret, label and context bytes", bounds="label %d bytes, context %d bytes, length %d" % (l, c, ln))
+_ARGS = ["stub: mls_rs::group::key_schedule::kdf_expand_with_label -> provider.kdf_expand(secret, [label.len()] ++ label ++ context, len) "
+         "(call-site arguments checked here, KDFLabel encoding by the c13_expand_* harnesses)"]
+for nm, l, c, ln in [("c13_args_export_l0_c0_len0", 0, 0, 0), ("c13_args_export_l3_c0_len2", 3, 0, 2), ("c13_args_export_l3_c2_len5", 3, 2, 5)]:
+    H(nm, "c13_derive.rs", ["C13"], "quick", unwind=24, stubs=ZSTUBS + _UF + _ARGS,
+      what="export_secret call-site arguments: DeriveSecret(exporter_secret, label), Hash(context) for every context, "
+           "ExpandWithLabel(derived, 'exported', hash, len)", symbolic="exporter secret, label, context bytes",
+      bounds="label %d bytes, context %d bytes, length %d" % (l, c, ln))
+H("c13_args_export_deleted", "c13_derive.rs", ["C13"], "quick", unwind=24, stubs=ZSTUBS + _UF + _ARGS,
+  what="a deleted exporter refuses to export and performs no KDF call", symbolic="exporter secret", bounds="-")
+H("c13_transcript_application_member", "c13_derive.rs", ["C13"], "quick", unwind=40, stubs=ZSTUBS + _UF, mem="M",
+  what="confirmed_transcript_hash = Hash(interim[n-1] || wire_format || FramedContent || signature); confirmation_tag = MAC(confirmation_key, "
+       "confirmed_transcript_hash); interim = Hash(confirmed || opaque confirmation_tag<V>) - application content from a member",
+  symbolic="group id, epoch, sender index, authenticated data, content, signature bytes, wire format", bounds="1-2 byte fields")
+H("c13_membership_tag_application_member", "c13_derive.rs", ["C13", "C03"], "quick", unwind=90, stubs=ZSTUBS + _UF, mem="M",
+  what="membership_tag = MAC(membership_key, FramedContentTBS(version, wire format, FramedContent, GroupContext) || FramedContentAuthData)",
+  symbolic="context fields, content fields, signature, membership key", bounds="1-2 byte fields; context protocol version assumed 1 (mls10)",
+  assumes=["group context protocol version == 1"])
+OUTSIDE["C18"] = ("which members reach the epoch, PSK admission rules, PskResolver, joiners (Group-sized state, proposal-cache maps); "
+                  "resumption PSK ids in the chain (the harness with a resumption id exhausted 19 GB three times); lists longer than 2")
+H("c18_psk_fixed_1_external", "c13_derive.rs", ["C18", "C13"], "quick", unwind=40, stubs=ZSTUBS + _UF,
+  what="PSK chain, n=1: psk_extracted = Extract(0^Nh, psk); psk_input = ExpandWithLabel(psk_extracted, 'derived psk', PSKLabel(id, nonce, "
+       "index 0, count 1), Nh); psk_secret = Extract(psk_input, 0^Nh): value, id and nonce all reach the chain",
+  symbolic="psk value (2 bytes), id byte, nonce byte", bounds="one external PSK")
+H("c18_psk_fixed_2_external", "c13_derive.rs", ["C18", "C13"], "quick", unwind=40, stubs=ZSTUBS + _UF, mem="M",
+  what="PSK chain, n=2: each PSK's value/id/nonce/index/count enters its own Extract-Expand pair and the running secret is chained in list "
+       "order (psk_secret_2 = Extract(psk_input_1, Extract(psk_input_0, 0))): changing value, id, nonce or order changes an input of the chain",
+  symbolic="two psk values, ids, nonces", bounds="two external PSKs")
+CLAIMS["C18"] = dict(text="Last sentence of the property only: the PSK secret chain takes every PSK's value, id, nonce, index and count in list order "
+                          "(dataflow, primitives uninterpreted), for lists of 0, 1 and 2 external PSKs. Who reaches the epoch is outside.", note=_NOTE)
+
+
+# ------------------------------------------------------------------ additions prompted by seeded changes (DESIGN §9)
+for nm, ty, mem in [("c03_cmp_confirmation_tag", "ConfirmationTag ==", "M"), ("c03_cmp_membership_tag", "MembershipTag ==", "L"),
+                    ("c03_cmp_parent_hash", "ParentHash::matches", "L")]:
+    H(nm, "c03_c05_framing.rs", ["C03"], "quick", unwind=8, mem=mem,
+      what="%s is exact equality of length and bytes (a stale tag / wrong parent hash that is a prefix, an extension or a same-length variant "
+           "never compares equal)" % ty, symbolic="two byte strings, lengths 0..3 symbolic, contents symbolic", bounds="<= 3 bytes each")
+for nm, slots in [("c19_prior_epoch_sender_key_shrunk_to_3_leaves", 5), ("c19_prior_epoch_sender_key_shrunk_to_2_leaves", 3)]:
+    H(nm, "c19_retention.rs", ["C19"], "quick", unwind=9, mem="M",
+      what="prior-epoch sender check when the tree has shrunk since the old epoch: every old sender position 0..3 is accepted iff the same key "
+           "is still at that leaf; a sender beyond the current tree is refused", symbolic="occupancy and keys of the %d-slot tree, old key list (4 entries)" % slots,
+      bounds="%d node slots now, 4 leaves then" % slots)
+for x in [12, 13]:
+    H("c02_remove_trimmed16_leaf%d" % x, "c02_c08_tree.rs", ["C02"], "quick", unwind=30, mem="H",
+      what="removal on a trimmed 16-leaf-slot tree (27 of 31 slots, the direct path leaves the vector and re-enters it below the root): every "
+           "existing ancestor of the removed leaf is blank afterwards, parents off the path untouched",
+      symbolic="occupancy of all 13 parent slots", bounds="leaves 12 and 13 occupied, removed leaf %d" % x)
